@@ -214,11 +214,16 @@ def correspond(ctx):
             if dis <= 4:
                 ctx.violation('c16:%s:%s' % (l.split(' ')[0], 'exception' if (o[:2] != 'sp' and not o[:1].isdigit() and o[0] != '-') else 'structure'),
                               'sparse operation `%s`: implementation gives `%s`, model `%s`' % (l, o[:140], m[:140]), {'sequence': lines[st:k + 1], 'impl': o, 'model': m})
-    ctx.cov.update({'evaluations': len(lines), 'distinct_nontrivial': len(set(lines)),
+    # mixed sparse / dense products with every keyword (axpy, gemm, gemv, syrk, symv, elementwise operations): the call on sparse operands vs
+    # the same call on their dense images (tools/corr/c19_base.py; the same calls are the C19 guard-page probes)
+    from corr import c19_base
+    nprod = c19_base.base_probes(ctx, random.Random(ctx.seed * 977 + 16), ctx.build, 'C16')
+    ctx.cov.update({'evaluations': len(lines) + nprod, 'distinct_nontrivial': len(set(lines)),
                     'rule': '%d sequences of up to 13 operations on named sparse matrices (0..4 x 0..4, duplicates in triplets, explicit zeros, empty rows and '
                             'columns): construction, + - *, scalar multiplication, negation, transpose, indexed assignment (negative indices), element '
                             'access; CCS arrays compared with the model after every operation; every result also compared with the dense operation on '
-                            'dense copies and checked for structural validity; gemv / syrk / syrk(partial) against dense formulas' % nseq,
+                            'dense copies and checked for structural validity; gemv / syrk / syrk(partial) against dense formulas; generated calls of axpy / gemm / gemv / '
+                            'syrk / symv / emul / ediv with sparse operands, every transposition, increment and offset keyword, against the dense images' % nseq,
                     'protocol_lines_compared': len(lines), 'disagreements_checked': dis, 'dense_oracle_checks': oracle_checks})
     ctx.samples += [l for l in lines if l != 'reset'][:4]
 
